@@ -1,6 +1,6 @@
 (* C11 — property theorems only: each restates the full statement and is closed by the lemma proved in Proofs/. *)
 From Coq Require Import ZArith List Bool.
-From NPS Require Import ListAux PySlice NumpySem Scatter BuildIdx XorBroadcast View Index Assign Reduce Scan RaOps Heap Hash HashRun BitArr RLE RLEOps RLE2d DataClass RowsSpec AssignSpec MapSpec Denote HashInit HashSet HashProof.
+From NPS Require Import ListAux PySlice NumpySem Scatter BuildIdx XorBroadcast View Index Assign Reduce Scan RaOps Heap Hash HashRun BitArr RLE RLEOps RLE2d DataClass RowsSpec AssignSpec MapSpec Denote HashInit HashSet HashProof HashEq.
 Import ListNotations.
 Open Scope Z_scope.
 
@@ -45,3 +45,12 @@ Theorem C11_setv_correct :
        end.
 Proof. exact setv_correct. Qed.
 Print Assumptions C11_setv_correct.
+
+Theorem C11_tbl_eq_correct :
+  forall (V : Type) (dv : V) (veq : V -> V -> bool),
+       (forall a b : V, veq a b = true <-> a = b) ->
+       forall (t1 t2 : table V) (d1 d2 : assoc V),
+       Inv V dv t1 d1 ->
+       Inv V dv t2 d2 -> tbl_eq V veq dv t1 t2 = true <-> (forall k : Z, aget V d1 k = aget V d2 k).
+Proof. exact tbl_eq_correct. Qed.
+Print Assumptions C11_tbl_eq_correct.
